@@ -11,11 +11,11 @@ From Ecal Require Import Common.Outcome Common.Sched Model.IntHeap Model.Monitor
 Import ListNotations.
 
 Inductive case :=
-| CMon (id : nat) (ops : list op) (obs : list (list Z))
-| CQueue (id : nat) (trace : list tq_label)
-| CRules (id : nat) (flag : bool) (rules : list rule) (executed : list nat) (errors : list nat).
+| CMon (id : N) (ops : list op) (obs : list (list Z))
+| CQueue (id : N) (trace : list tq_label)
+| CRules (id : N) (flag : bool) (rules : list rule) (executed : list nat) (errors : list nat).
 
-Definition c_id (c : case) : nat :=
+Definition c_id (c : case) : N :=
   match c with CMon i _ _ => i | CQueue i _ => i | CRules i _ _ _ _ => i end.
 
 (* monitor: after every operation, a sampled report must be the model's *)
@@ -144,7 +144,7 @@ Definition dec_counted (l : list Z) : option (list nat * list Z) :=
 
 Definition decode (r : raw) : option case :=
   let '(kind, id, l) := r in
-  let i := Z.to_nat id in
+  let i := Z.to_N id in
   if Z.eqb kind 0 then
     match dec_mon (S (length l)) l with Some (ops, obs) => Some (CMon i ops obs) | None => None end
   else if Z.eqb kind 1 then
@@ -172,5 +172,5 @@ Definition decode (r : raw) : option case :=
 Definition verdict_raw (r : raw) : nat :=
   match decode r with Some c => verdict c | None => 8 end.
 
-Definition check_all (cs : list raw) : list (nat * nat) :=
-  filter (fun p => negb (Nat.eqb (snd p) 0)) (map (fun r => (Z.to_nat (snd (fst r)), verdict_raw r)) cs).
+Definition check_all (cs : list raw) : list (N * nat) :=
+  filter (fun p => negb (Nat.eqb (snd p) 0)) (map (fun r => (Z.to_N (snd (fst r)), verdict_raw r)) cs).
